@@ -527,7 +527,9 @@ func DecodeField(k Kind, p []byte) FieldValue {
 			v[i] = x
 		}
 		y := v[0]*100 + v[1]
-		if y == 0 || (y == 1 && v[2] == 1 && v[3] == 1) {
+		if y == 0 || (y == 1 && v[2] == 1 && v[3] == 1 && v[4] == 0 && v[5] == 0 && v[6] == 0) {
+			// (0001-01-01 00:00:00 is Go's zero time: a date-time and 'no date/time' at once, not judged; with a time of day it is
+			// a date-time like any other)
 			return FieldValue{"", false, false}
 		}
 		if !ValidDate(y, v[2], v[3]) || v[4] > 23 || v[5] > 59 || v[6] > 59 {
